@@ -7,14 +7,14 @@ variable (F : NumFmt)
 
 def keep (c : Cell F.Num) : Bool := !blankUnstyled F c
 
-/-- one sheet: every covered cell that is not blank-and-unstyled is written once, in order, and read
-    back as itself; the table only grows -/
+/-- one sheet: every covered cell that (with its value resolved) is not blank-and-unstyled is written once, in
+    order, and read back as itself (a lazy value as the typed value it stands for); the table only grows -/
 theorem writeCells_readCells (hF : F.Sound) (cs : List (Cell F.Num)) :
     ∀ (tbl : Table), (∀ c ∈ cs, cellOK F c = true) →
     ∃ tbl' xs, writeCells F tbl cs = some (tbl', xs) ∧
       (∃ ext, tbl' = tbl ++ ext ∧ ∀ it ∈ ext, ItemOK it) ∧
       ∀ sst : Table, sst.length < 18446744073709551616 → Extends sst tbl' →
-        mapOpt (readCell F sst) xs = some (cs.filter (keep F)) := by
+        mapOpt (readCell F sst) xs = some ((cs.filter (keep F)).map (Cell.resolved F)) := by
   induction cs with
   | nil =>
     intro tbl _
@@ -39,7 +39,7 @@ theorem writeCells_readCells (hF : F.Sound) (cs : List (Cell F.Num)) :
       | false =>
         obtain ⟨x, hox, hrx⟩ := hkeep hb
         rw [hox]
-        simp only [consOpt, mapOpt, hrx sst hlen hx1, hrd sst hlen hx, List.filter_cons, keep, hb, Bool.not_false, if_true]
+        simp only [consOpt, mapOpt, hrx sst hlen hx1, hrd sst hlen hx, List.filter_cons, keep, hb, Bool.not_false, if_true, List.map_cons]
 
 theorem writeSheets_readSheets (hF : F.Sound) (sheets : List (List (Cell F.Num))) :
     ∀ (tbl : Table), (∀ s ∈ sheets, ∀ c ∈ s, cellOK F c = true) →
